@@ -118,7 +118,7 @@ def check_case(run, case, tier='quick'):
         argv = ['-r', name, '-s', sn] + (['--skip_brute'] if flags['skip_brute'] else []) + (['--all_lower'] if flags['skip_case'] else [])
         for hidx in range(MAIN_HISTORIES[tier]):
             session.drop_session(sn)
-            ncyc = rng.randint(1, 4)
+            ncyc = rng.randint(1, 4) if tier == 'quick' else rng.choice([1, 2, 3, 4, 6, 9])
             runs, saved = [], []
             remaining = len(U)
             uuid_swap = (hidx == 0 and rng.random() < 0.5)
